@@ -32,6 +32,7 @@ type dbgPlan struct {
 	StopAtRound  int      `json:"stop_threads_at_round,omitempty"` // C15: StopThreads() while the program runs / threads are suspended
 	StopAgain    bool     `json:"stop_again,omitempty"`            // ... and again for every thread that suspends after that
 	Second       bool     `json:"second_client,omitempty"`         // C15: a second client resumes suspended threads concurrently with the first
+	NoBOE        bool     `json:"no_break_on_error,omitempty"`     // break-on-error switched off (the default of the command line tool)
 	Lines        int      `json:"lines"`
 	// C16 only
 	Garbage bool `json:"garbage,omitempty"`
@@ -119,6 +120,7 @@ func dbgGen(r *simrt.RNG, tier string, garbage bool) interface{} {
 		}
 	}
 	nb := r.Intn(7)
+	staticBPs := r.Bool(0.35) // the whole script runs before the program starts
 	for i := 0; i < nb; i++ {
 		bp := dbgBP{Line: lines[r.Intn(nl)], Op: "break"}
 		switch x := r.Intn(10); {
@@ -129,7 +131,7 @@ func dbgGen(r *simrt.RNG, tier string, garbage bool) interface{} {
 		case x == 4 && i > 1:
 			bp.Op = "rmsource"
 		}
-		if !p.ResumeOnly {
+		if !p.ResumeOnly && !staticBPs {
 			bp.When = r.Intn(4)
 		}
 		p.BPs = append(p.BPs, bp)
@@ -142,6 +144,7 @@ func dbgGen(r *simrt.RNG, tier string, garbage bool) interface{} {
 		p.StopAgain = r.Bool(0.5)
 	}
 	p.Second = !garbage && !p.ResumeOnly && p.StopAtRound == 0 && r.Bool(0.2)
+	p.NoBOE = !p.ResumeOnly && r.Bool(0.3)
 	if (garbage && r.Bool(0.2)) || (!garbage && r.Bool(0.1)) {
 		for i, k := range p.Blocks {
 			if k == "lib" {
@@ -194,6 +197,11 @@ func dbgShrink(pi interface{}) []interface{} {
 		q.Second = false
 		out = append(out, q)
 	}
+	if p.NoBOE {
+		q := clone()
+		q.NoBOE = false
+		out = append(out, q)
+	}
 	// dropping a block shifts line numbers: re-map is not attempted, breakpoints are kept as numbers
 	for i := range p.Blocks {
 		if len(p.Blocks) > 1 {
@@ -243,7 +251,7 @@ func dbgProgram(p *dbgPlan) (string, bool) {
 			fmt.Fprintf(&b, "func e%d(a) {\n    if a > %d {\n        raise(\"Err%d\", \"big\")\n    }\n    return a\n}\n", i, c, i)
 			fmt.Fprintf(&b, "try {\n    t%d := e%d(%d)\n    log(\"noerr%d\")\n} except \"Err%d\" as err {\n    log(\"caught \", err.type)\n}\n", i, i, c+(i%2)*2, i, i)
 		case "deep":
-			fmt.Fprintf(&b, "func d%d(a) {\n    if a <= 0 {\n        return 0\n    }\n    return 1 + d%d(a - 1)\n}\nq%d := d%d(%d)\n", i, i, i, i, c)
+			fmt.Fprintf(&b, "func d%d(a) {\n    if a <= 0 {\n        return 0\n    }\n    return 1 + d%d(a - 1)\n}\nq%d := d%d(%d)\n", i, i, i, i, c*5)
 		case "zoo":
 			// assorted values a debugger has to describe: non-finite numbers, nesting, non-string keys
 			fmt.Fprintf(&b, "zinf%d := %d / 0\nzl%d := [1, [2, %d], {\"a\": 1}]\nzm%d := {1: 2, \"k\": [%d], true: null}\nzs%d := inc(len(zl%d))\n", i, c, i, c, i, c, i, i)
@@ -287,6 +295,7 @@ type recDebugger struct {
 type dbgVisit struct {
 	line      int
 	suspended bool
+	depth     int // function calls entered and not yet left by the thread
 }
 
 type dbgState struct {
@@ -295,15 +304,22 @@ type dbgState struct {
 	inVisit  map[uint64]int
 	progress map[uint64]int // debugger hook entries per thread
 	lastCont map[uint64]int // progress of the thread when the last continue was sent to it
+	depth    map[uint64]int // call depth per thread (step-in / step-out hooks)
 }
 
 func (d *recDebugger) VisitStepInState(node *parser.ASTNode, vs parser.Scope, tid uint64) util.TraceableRuntimeError {
 	d.st.progress[tid]++
-	return d.ECALDebugger.VisitStepInState(node, vs, tid)
+	err := d.ECALDebugger.VisitStepInState(node, vs, tid)
+	d.st.depth[tid]++
+	return err
 }
 
 func (d *recDebugger) VisitStepOutState(node *parser.ASTNode, vs parser.Scope, tid uint64, soErr error) util.TraceableRuntimeError {
 	d.st.progress[tid]++
+	d.st.depth[tid]--
+	if soErr != nil {
+		simrt.Note("thread %d: call on line %d returned the error value %v", tid, node.Token.Lline, soErr)
+	}
 	return d.ECALDebugger.VisitStepOutState(node, vs, tid, soErr)
 }
 
@@ -318,10 +334,11 @@ func (d *recDebugger) VisitState(node *parser.ASTNode, vs parser.Scope, tid uint
 	if node.Token.Lsource == dbgLibName {
 		line += dbgLibBase
 	}
-	d.st.visits[tid] = append(d.st.visits[tid], dbgVisit{line: line})
+	d.st.visits[tid] = append(d.st.visits[tid], dbgVisit{line: line, depth: d.st.depth[tid]})
 	err := d.ECALDebugger.VisitState(node, vs, tid)
 	if d.st.conts[tid] != before {
 		d.st.visits[tid][idx].suspended = true
+		simrt.Note("thread %d was suspended at line %d", tid, line)
 	}
 	return err
 }
@@ -347,11 +364,11 @@ func dbgExec(p *dbgPlan, src string, withDebugger bool, prop string) dbgOutcome 
 		out.scope = vs.String()
 		return out
 	}
-	st := &dbgState{visits: map[uint64][]dbgVisit{}, conts: map[uint64]int{}, inVisit: map[uint64]int{}, progress: map[uint64]int{}, lastCont: map[uint64]int{}}
+	st := &dbgState{visits: map[uint64][]dbgVisit{}, conts: map[uint64]int{}, inVisit: map[uint64]int{}, progress: map[uint64]int{}, lastCont: map[uint64]int{}, depth: map[uint64]int{}}
 	inner := interpreter.NewECALDebugger(vs)
 	dbg := &recDebugger{inner, st}
 	erp.Debugger = dbg
-	if p.ResumeOnly {
+	if p.ResumeOnly || p.NoBOE {
 		dbg.BreakOnError(false)
 	}
 	applyBP := func(bp dbgBP) {
@@ -575,6 +592,50 @@ func dbgExec(p *dbgPlan, src string, withDebugger bool, prop string) dbgOutcome 
 				simrt.Fail("oracle:suspension", "suspension/line-not-visited", "the main thread evaluated the list literal around line %d but never reported arriving at that line to the debugger (a breakpoint there cannot be honoured); lines reported: %v; result %s\n%s", l, keysInt(seen), out.result, src)
 			}
 		}
+	}
+	static := true
+	for _, bp := range p.BPs {
+		static = static && bp.When == 0
+	}
+	if prop == "C15" && !p.ResumeOnly && !p.Second && !stopped && static && len(p.BPs) > 0 {
+		// (not with a second client: which visit a continue ended cannot be told from the
+		// command counters when two clients address the same thread)
+		// (e) whatever step commands were used: a thread that arrives at a top-level line
+		// (no call entered) with an active breakpoint, coming from a different line,
+		// suspends there. (Inside calls a thread that is being stepped over / out may pass
+		// breakpoints on the pinned tree; that is not asserted.)
+		active := map[int]bool{}
+		for _, bp := range p.BPs {
+			switch bp.Op {
+			case "break":
+				active[bp.Line] = true
+			case "disablebreak":
+				if _, ok := active[bp.Line]; ok {
+					active[bp.Line] = false
+				}
+			case "rmbreak":
+				delete(active, bp.Line)
+			case "rmsource":
+				for l := range active {
+					if (l >= dbgLibBase) == (bp.Line >= dbgLibBase) {
+						delete(active, l)
+					}
+				}
+			}
+		}
+		vsits := st.visits[mainTid]
+		for i, v := range vsits {
+			if v.depth == 0 && active[v.line] && (i == 0 || vsits[i-1].line != v.line) && !v.suspended {
+				simrt.Fail("oracle:suspension", "suspension/missed-at-top-level",
+					"the main thread arrived at top-level line %d (active breakpoint, previous line %d) and did not suspend; breakpoints at %v; visits (line/depth, * = suspended): %s", v.line, func() int {
+						if i == 0 {
+							return 0
+						}
+						return vsits[i-1].line
+					}(), keysInt(active), dbgVisitTrace(vsits, i)+"\n"+src)
+			}
+		}
+		simrt.Count("top_level_breakpoint_traces_checked")
 	}
 	if prop == "C15" && p.ResumeOnly {
 		// (c) suspensions are exactly the arrivals, from a different line, at lines
@@ -822,4 +883,20 @@ func dbgRun(p *dbgPlan, prop string) {
 	if plain.scope != dbgd.scope {
 		simrt.Fail("oracle:transparency", "transparency/variables", "final variables differ.\n--- plain:\n%s\n--- debugged:\n%s\n--- program:\n%s", plain.scope, dbgd.scope, src)
 	}
+}
+
+func dbgVisitTrace(v []dbgVisit, upto int) string {
+	var b strings.Builder
+	from := upto - 40
+	if from < 0 {
+		from = 0
+	}
+	for i := from; i <= upto && i < len(v); i++ {
+		fmt.Fprintf(&b, "%d/%d", v[i].line, v[i].depth)
+		if v[i].suspended {
+			b.WriteString("*")
+		}
+		b.WriteString(" ")
+	}
+	return b.String()
 }
